@@ -25,7 +25,15 @@ def run(prog, rep):
         prog.method(c, m)
     jobs = [("inflow", c) for c in SC.dsm_configs(rep.tier)]
     jobs += [("stockdriven", dict(c, both_generic=True)) for c in SC.dsm_configs(rep.tier) if c["n_pts"] == 1 and c["n_t"] <= 4]
-    jobs += [("stockdriven", c) for c in SC.int_driver_configs(rep.tier)]
+    jobs += [("stockdriven", c) for c in SC.int_driver_configs(rep.tier) + SC.layout_configs(rep.tier)]
+    # the cohort identities also hold on a re-used object: driver / parameters / quadrature setting changed between two compute() calls
+    for dist in ("NormalLifetime", "FixedLifetime"):
+        cfg = dict(n_t=3, labels=("a",), dist=dist, over="all", n_pts=1, inflow_at="middle")
+        for cls in ("InflowDrivenDSM", "StockDrivenDSM"):
+            for solver in (("manual", "lapack") if cls == "StockDrivenDSM" else ("manual",)):
+                hs = ("CQC", "QC", "CQDC", "CPC", "CDC", "CZC", "CZDC") if rep.tier == "thorough" else (("CQC", "CZDC") if dist == "FixedLifetime" else ("CQC", "QC", "CPC"))
+                for h in hs:
+                    jobs.append(("history", dict(cfg, solver=solver), cls, h))
     run_stock_property(prog, rep, "C09", jobs, {"cohort-sums": "C09.totals-are-cohort-sums", "cohort-zero-above": "C09.zero-for-later-cohorts",
                                                 "cohort-share": "C09.cohort-share", "cohort-conservation": "C09.cohort-conservation"})
     rep.rules["C09.totals-are-cohort-sums"]["floor"] = 30
